@@ -801,6 +801,11 @@ func (m *SamplingMessageV2) MarshalJSON() ([]byte, error) {
 		return json.Marshal(&SamplingMessage{Content: m.Content[0], Role: m.Role})
 	}
 	type msg SamplingMessageV2 // avoid recursion
+	if m.Content == nil {
+		m2 := *m
+		m2.Content = []Content{} // avoid JSON null
+		return json.Marshal((*msg)(&m2))
+	}
 	return json.Marshal((*msg)(m))
 }
 
@@ -916,6 +921,11 @@ func (r *CreateMessageWithToolsResult) MarshalJSON() ([]byte, error) {
 		})
 	}
 	type result CreateMessageWithToolsResult // avoid recursion
+	if r.Content == nil {
+		r2 := *r
+		r2.Content = []Content{} // avoid JSON null
+		return json.Marshal((*result)(&r2))
+	}
 	return json.Marshal((*result)(r))
 }
 
